@@ -320,7 +320,9 @@ func httpConcScenario(sc hconc) *vexp.Scenario {
 			var outs []string
 			body := func() {
 				w = newHWorld(sc.P)
-				if err := w.resolve(); err != nil {
+				var rerr error
+				vrt.Quiet(func() { rerr = w.resolve() })
+				if rerr != nil {
 					outs = []string{"resolve=err"}
 					return
 				}
